@@ -12,6 +12,7 @@ var commonComponents = map[string]string{
 
 func initProps() {
 	initC11()
+	initC18()
 	propsCfg["C17"] = &propCfg{
 		race:        true,
 		level:       "exploration",
@@ -60,6 +61,32 @@ func initC11() {
 			"non-trivial = every run (each moves at least one frame or exercises a cut); distinct = distinct interleaving signature",
 		scenarios: []fixedScenario{
 			{name: "cutenum", enum: true, runs: func(tier string) int64 { return 0 }},
+		},
+	}
+}
+
+func initC18() {
+	propsCfg["C18"] = &propCfg{
+		race:        true,
+		level:       "exploration",
+		quickRuns:   40000,
+		thorRuns:    3000000,
+		quickBudget: 150,
+		thorBudget:  1500,
+		components: withExtra(withExtra(commonComponents, "NBNS / LLMNR raw clients, LLMNR responders, NBNS challenged node", "harness tasks on simulated hosts (LLMNR: independent minimal RFC 1035 codec; NBNS requests built with the library's own Marshal, responses read by an independent tolerant reader)"),
+			"expected NBNS answers", "obtained differentially: the same request bytes answered by the same, quiescent server before any concurrency or fault"),
+		assumptions: []string{
+			"simulated sockets follow the documented net contracts (deadline errors, ErrClosed on close-while-blocked, datagram truncation, UDP drop/dup/reorder, stream FIN/RST); kernel specifics (ICMP errors, SO_REUSEADDR) are not modelled",
+			"'promptly' is taken as: Stop/Close returns and every SUT goroutine has exited within the server's own longest I/O timeout + 2 s of simulated time once faults have stopped (32 s NBNS, 6 s LLMNR)",
+			"malformed datagrams are not injected here (decoder totality is C07)",
+			"seeded sampling of schedules, fault sequences and stop times; the 16-opcode routing table is enumerated exhaustively (3 transports x 16 opcodes x 2 record dialects)",
+		},
+		rule: "each run: one system (nbtns.Server | nbtns.UDPServer+TCPServer | llmnr.Server | llmnr.Client vs harness responders | llmnr.Client+Server | nbtns.NameChallenger) started through its real constructors on simulated hosts; " +
+			"1-6 concurrent clients x 1-5 requests with unique ids and names (UDP, pipelined TCP with aborts and slow readers, multicast), UDP drop/duplicate/delay/reorder, TCP segmentation, stalled tasks (time skips), preemption before every SUT statement, Stop/Close at a chosen time (also at time 0 and twice). " +
+			"oracles: every response is byte-identical (modulo id) to the quiescent server's answer for the one request whose id it carries and reaches that client only; LLMNR client returns the message with the id it sent, or timeout/cancel; handler-chain short-circuit; Stop/Close returns, Serve returns, no SUT task left; race detector. " +
+			"non-trivial = the run completed its workload (not discarded); distinct = distinct interleaving signature",
+		scenarios: []fixedScenario{
+			{name: "openum", enum: true, runs: func(tier string) int64 { return 0 }},
 		},
 	}
 }
